@@ -34,7 +34,7 @@ type Case struct {
 	Ops   []Op     `json:"ops"`
 }
 
-var chans = []string{"a/", "a/b/", "a/b/c/", "x/", "a/b/", "a/"}
+var chans = []string{"a/", "a/b/", "a/b/c/", "x/", "a/b/", "a/", "a/c/b/", "a/b/a/", "b/a/"}
 var watchChans = []string{"a/", "a/b/", "x/"}
 
 func genCase(t *rapid.T) Case {
